@@ -260,6 +260,11 @@ impl<'a, 'b: 'a, R: Read> RowParser<'a, 'b, R> {
                 break;
             }
 
+            // End of input inside a row
+            if self.parser.lexer.cur.value.is_none() {
+                break;
+            }
+
             let val = self.parser.parse_value()?;
             if col_num >= cols.len() {
                 return self
